@@ -39,7 +39,7 @@ def run(rep):
     rep.assumptions += ["the 5/8/12 s second-difference bounds and the 4 min/day bound for the trig-defined times depend on the curvature of "
                         "the real ephemeris (EPH smoothness) and are outside the claim; the claim is the absence of calendar/wrap-induced jumps"]
     results = base.run_obligations(rep, [(jd.jd_gmt_shift, None), (jd.jd_formula, (1583, 9999)), (transit.ra_deltas, None), (transit.dhuhr_transit, None), (wiring.astro_day_wiring, None)])
-    if any(x["cands"] for x in results):
+    if any((x["cands"] or x["inconclusive"]) for x in results):
         found = {}
         for key, desc, case, obs in second_diffs():
             found.setdefault(key, []).append((desc, case, obs))
